@@ -688,6 +688,44 @@ fn build_subject_uncached(desc: &Value) -> anyhow::Result<Subj> {
         }
         "RailVehicle" => Subj::Rv(RailVehicle::from_file(build::resources_dir().join("rolling_stock/Manifest_Loaded.yaml"))?),
         "LinkPath" => Subj::Lp(LinkPath(toy_net()?.route)),
+        // boundary values of the link index newtype (custom Serialize / Deserialize): 0, 1, u32::MAX - 1, u32::MAX
+        "LinkPath.bounds" => Subj::Lp(LinkPath([0, 1, u32::MAX - 1, u32::MAX].iter().map(|i| LinkIdx::new(*i)).collect())),
+        "TimedLinkPath.bounds" => Subj::Tlp(TimedLinkPath(
+            [0, 1, u32::MAX - 1, u32::MAX]
+                .iter()
+                .enumerate()
+                .map(|(k, i)| LinkIdxTime::new(LinkIdx::new(*i), uc::S * (k as f64 * 7.5)))
+                .collect(),
+        )),
+        "Location.bounds" => Subj::Loc(build::location("Z", u32::MAX)),
+        "SetSpeedTrainSim.grades" | "SpeedLimitTrainSim.grades" => {
+            // realistic train on a corridor with a grade break every kilometre: late in a run both ends of the train
+            // sit inside the same grade segment with index >= 1 (the strap model's search hints are then non-zero)
+            let n = 8;
+            let links: Vec<Value> = (1..=n)
+                .map(|k| {
+                    let e = |j: i64| [0, 3, 1, 5, 2, 6, 3, 4, 1][j as usize];
+                    json!({"len":1000,"prev":k-1,"next": if k < n { k + 1 } else { 0 },
+                           "elevs":[[0, e(k-1)],[1000, e(k)]],
+                           "headings":[[0, 0],[400, 10 * (k % 3)],[1000, 0]],
+                           "rs":[[0,1000,12]]})
+                })
+                .collect();
+            let net = build::network(&json!({"oscale":1,"vscale":1,"escale":1,"links":links}))?;
+            let route: Vec<LinkIdx> = (1..=n as u32).map(LinkIdx::new).collect();
+            let tc = real_tc(12)?;
+            if kind.starts_with("SetSpeed") {
+                let tsb = TrainSimBuilder::new("g".into(), tc, Consist::default(), None, None, None);
+                let v: Vec<f64> = (0..=1200).map(|k| (0.05 * k as f64).min(9.0)).collect();
+                let st = SpeedTrace::new((0..=1200).map(|k| k as f64).collect(), v, None);
+                Subj::Sss(tsb.make_set_speed_train_sim(&net, &route, st, Some(5))?)
+            } else {
+                let tsb = TrainSimBuilder::new("g".into(), tc, Consist::default(), Some("A".into()), Some("B".into()), None);
+                let mut s = tsb.make_speed_limit_train_sim(&build::location_map(&[1], &[n as u32]), Some(5), None, None)?;
+                s.extend_path(net.as_ref(), &route)?;
+                Subj::Slts(Box::new(s))
+            }
+        }
         "Consist" => Subj::Con(toy_consist(&mut lp)?),
         "LocomotiveSimulation" | "LocomotiveSimulation.bel" => {
             let l = if kind.ends_with(".bel") { bel(&mut lp)? } else { conv(&mut lp)? };
@@ -954,11 +992,18 @@ const REAL: [&str; 22] = [
 fn gen(seed: u64, n: usize, tier: &str) -> Vec<Value> {
     let mut out = vec![];
     // pinned: every kind, every format, default state and mid-run, through files
-    const EXTRA: [&str; 3] = ["Locomotive.hybrid", "RailVehicle", "LinkPath"];
+    const EXTRA: [&str; 6] = ["Locomotive.hybrid", "RailVehicle", "LinkPath", "LinkPath.bounds", "TimedLinkPath.bounds", "Location.bounds"];
     for kind in DEEP.iter().chain(SHALLOW.iter()).chain(EXTRA.iter()) {
         for fmt in ["yaml", "json", "bin"] {
             out.push(json!({"src":"gen","kind":kind,"scale":"toy","via":"file",
                             "sched":[fmt,"step",fmt,"step","step",fmt,"step"]}));
+        }
+    }
+    // pinned: checkpoints spread over a whole train run (first, middle and last third) on a multi-grade corridor
+    for kind in ["SetSpeedTrainSim.grades", "SpeedLimitTrainSim.grades"] {
+        for pre in [30, 180, 330, 480, 630] {
+            out.push(json!({"src":"gen","kind":kind,"scale":"real","via":"mem","pre":pre,
+                            "sched":["yaml","step","step","json","step","step","bin","step"]}));
         }
     }
     // realistic scale: default objects, shipped corridor; checkpoints deep inside a run
